@@ -262,6 +262,17 @@ def budgetScan (thr : Int) : Int → Bool → List (Option (Nat × Int)) → Boo
     else if l == cur && (flush || decide (cur ≤ 0)) then budgetScan thr cur flush r   -- flushed, or budget exhausted
     else false
 
+/-- `Config.SetDefaults` + `resetWriteThresholds`: the byte budget in effect for a configured RekeyThreshold:
+    0 ↦ the cipher's default (`rekeyBytes`: 2^36 for the AES ciphers, 2^30 otherwise), 1..255 ↦ 256 (minimum),
+    ≥ 2^63 − 1 ↦ 2^63 − 1 (so that the int64 budget cannot go negative by conversion) -/
+def effectiveThreshold (thr : Nat) (cipher : String) : Nat :=
+  if thr == 0 then
+    (if cipher == "aes128-ctr" || cipher == "aes192-ctr" || cipher == "aes256-ctr" || cipher == "aes128-gcm@openssh.com"
+        || cipher == "aes256-gcm@openssh.com" || cipher == "aes128-cbc" then 16 * 2 ^ 32 else 2 ^ 30)
+  else if thr < 256 then 256
+  else if thr ≥ 2 ^ 63 - 1 then 2 ^ 63 - 1
+  else thr
+
 /-! ## the error path (`writeError`): `recordWriteError`, a failing push in `writePacket`, a failed key exchange
 
   fail        `writeError` is set and `writeCond.Broadcast()` is called (recordWriteError / writePacket's own failure)
